@@ -323,7 +323,7 @@ def cases(rng, tier):
     for grp in norm:
         out.append({"defaults": {}, "reqs": [{"host": h, "port": p, "scheme": s, "kw": kw} for h, p, s, kw in grp]})
     # two keywords at once (thorough) / random mixes (quick)
-    n2 = 400 if tier == "quick" else 40000
+    n2 = 1500 if tier == "quick" else 40000
     for _ in range(n2):
         k1, k2 = rng.sample(kws, 2)
         v1, v2 = rng.choice(values_for(k1)), rng.choice(values_for(k2))
